@@ -1489,6 +1489,12 @@ protected:
 
     virtual void internal_pop(buffer_operation *op) {
         __TBB_ASSERT(op->elem, nullptr);
+        // The front item may be reserved by a successor (try_reserve): when it is the only item left,
+        // pop_back() would hand the reserved item out a second time.
+        if (this->my_reserved && this->my_tail - this->my_head <= 1) {
+            op->status.store(FAILED, std::memory_order_release);
+            return;
+        }
 #if __TBB_PREVIEW_FLOW_GRAPH_TRY_PUT_AND_WAIT
         bool pop_result = op->metainfo ? this->pop_back(*(op->elem), *(op->metainfo))
                                        : this->pop_back(*(op->elem));
